@@ -1,5 +1,6 @@
 (* Properties_C16.v - serialization round-trip. *)
-From Msm Require Import Run Lemmas_World.
+From Msm Require Import Run Lemmas_World Lemmas_Sim Spec Lemmas_SpecRun Lemmas_Equiv Lemmas_SaveLoad.
+From Coq Require Import List. Import ListNotations.
 
 (* the loaded machine has the saved active ids, history memory and processing flag, and empty queues ... *)
 Theorem C16_roundtrip_level : forall rn,
@@ -20,3 +21,64 @@ Theorem C16_independent : forall cf root ops fuel w k o w' tr j,
   run_wop cf root ops fuel w (OOn k o) = (w', tr) -> j <> k -> wget w' j = wget w j.
 Proof. exact on_object_frame. Qed.
 Print Assumptions C16_independent.
+
+(* "The loaded machine then reacts to every event sequence exactly like the original, whatever reachable configuration was
+   saved": for every core definition (Spec.core: any nesting depth, regions, guards, internal tables, any history policy
+   on submachines), every history l1 of start / process_event / stop that leads to the save point and every continuation
+   l2, under every guard valuation: the save point holds no stored events (so the save operation is inside the
+   property's quantifier), the loaded image abstracts to the saved configuration at every level, and the original and the
+   loaded object give the same behaviour invocations in the same order with the same arguments and the same reported
+   configuration after every operation; result codes have the same handled / rejected meaning (same_step_strict).
+   The loaded object is NOT the same tree - Boost.Serialization does not archive the deferred-sequence counter, the
+   loaded one starts again at 0 - so this is a statement about behaviour, obtained from the refinement of Spec.v. *)
+Theorem C16_loaded_machine_reacts_like_original_back : forall cf parents root fuel l1 l2,
+  c_be cf = Back -> (forall e, nth e parents None = None) -> back_start_queues = true -> core root ->
+  depth root + 2 <= fuel -> Forall plain_op l1 -> Forall plain_op l2 ->
+  let ops := build cf parents false root in
+  let rn := run_final cf root ops fuel (init_rnode root) l1 in
+  has_pending rn = false /\
+  abs (loaded_from rn) = abs rn /\
+  Forall2 same_step_strict (run_ops cf root ops fuel rn l2) (run_ops cf root ops fuel (loaded_from rn) l2).
+Proof. intros cf parents root fuel l1 l2 Hb Hf Hq Hc Hfu. exact (back_saveload_any_history cf Hb parents Hf Hq root Hc fuel Hfu l1 l2). Qed.
+Print Assumptions C16_loaded_machine_reacts_like_original_back.
+
+Theorem C16_loaded_machine_reacts_like_original_back11 : forall fct pol qb parents root fuel l1 l2,
+  (forall e, nth e parents None = None) -> back_start_queues = true -> core root -> no_internal root ->
+  depth root + 2 <= fuel -> Forall plain_op l1 -> Forall plain_op l2 ->
+  let cf := Cfg Back11 fct pol qb in
+  let ops := build cf parents false root in
+  let rn := run_final cf root ops fuel (init_rnode root) l1 in
+  has_pending rn = false /\
+  abs (loaded_from rn) = abs rn /\
+  Forall2 same_step_strict (run_ops cf root ops fuel rn l2) (run_ops cf root ops fuel (loaded_from rn) l2).
+Proof. exact back11_saveload_any_history. Qed.
+Print Assumptions C16_loaded_machine_reacts_like_original_back11.
+
+(* the save / load operation between two objects of a world: it is not refused at a quiet save point, leaves the
+   original as it is, and the next operation is answered alike by both *)
+Theorem C16_saveload_operation : forall cf parents root fuel w src dst rn o,
+  c_be cf = Back -> (forall e, nth e parents None = None) -> back_start_queues = true -> core root ->
+  depth root + 2 <= fuel ->
+  wget w src = Some rn -> ok root rn -> dst < length w -> dst <> src -> plain_op o ->
+  let ops := build cf parents false root in
+  let '(w', tr) := run_wop cf root ops fuel w (OSaveLoad dst src) in
+  tr = [] /\ wget w' src = Some rn /\ wget w' dst = Some (loaded_from rn) /\
+  same_step_strict (let '(rn1, t1) := run_op cf root ops fuel rn o in (t1, snapshot root rn1 []))
+                   (let '(rn2, t2) := run_op cf root ops fuel (loaded_from rn) o in (t2, snapshot root rn2 [])).
+Proof. intros cf parents root fuel w src dst rn o Hb Hf Hq Hc Hfu. exact (back_saveload_world cf Hb parents Hf Hq root Hc fuel Hfu w src dst rn o). Qed.
+Print Assumptions C16_saveload_operation.
+
+(* the hypotheses are met by a nested definition with two regions and history, saved inside the submachine after six
+   operations - a save point that is not the initial configuration and whose loaded image is a different tree *)
+Example C16_example :
+  let cf := Cfg Back false 0 false in
+  let root := md_root ex_core_md in
+  let ops := build cf [] false root in
+  let rn := run_final cf root ops default_fuel (init_rnode root) (firstn 3 ex_core_ops) in
+  core root /\ Forall plain_op (firstn 3 ex_core_ops) /\ Forall plain_op (skipn 3 ex_core_ops) /\
+  abs rn <> abs (init_rnode root) /\
+  run_ops cf root ops default_fuel rn (skipn 3 ex_core_ops) = run_ops cf root ops default_fuel (loaded_from rn) (skipn 3 ex_core_ops).
+Proof.
+  cbv zeta. split; [exact ex_core_ok|]. split; [repeat constructor; cbn; discriminate|]. split; [repeat constructor; cbn; discriminate|].
+  split; [vm_compute; discriminate | vm_compute; reflexivity].
+Qed.
